@@ -3,9 +3,15 @@ PROP = dict(
     engines=["c18"],
     go_tags=["c18"],
     gen_files={"MM/Gen/C18.lean": "c18"},
+    extract_files={"MM/Gen/LockC18.lean": {"cmd": ["go", "run", "{VERIF}/tools/lockshape.go", "LockC18",
+        "{REPO}/internal/stream/manager.go", "Stream.CloseWrite,Stream.HandleRemoteFinWrite,Stream.Close,Stream.PushData,Stream.Read", "mu",
+        "state,localFinWrite,remoteFinWrite,remoteFinCh,closed,readBuffer"]}},
     lean_modules=["MM.Props.C18"],
     theorems=[
         "MM.C18.cap_tie",
+        "MM.C18.C18_lock_state_transitions",
+        "MM.C18.C18_lock_fin_flags",
+        "MM.C18.C18_lock_closewrite_once",
         "MM.C18.C18_data_before_eof",
         "MM.C18.C18_fifo",
         "MM.C18.C18_frames_may_arrive_later",
